@@ -51,10 +51,21 @@ Definition stop_order : list comp :=
 Definition orig_order : list comp :=
   [CConn; CBcast; CScan; CWork; CSub; CBlock; CAddr; CBatch; CSvc].
 
-(* What can release a wait. *)
+(* What can release a wait.
+
+   RServe c blocks: the wait is a request to (or a reply from) a goroutine of
+   component c that is still running its serving loop — the peer handler
+   taking a message from s.query, the subscription handler taking a
+   cancellation, the batch writer's queue taking an item.  Such a release is
+   available only while c has NOT been stopped (afterwards only c's quit
+   channel can release the wait), and only if the serving goroutine is not
+   itself stuck: [blocks] lists, for every site at which that goroutine can
+   itself be blocked outside its serving select, the releases it has there
+   (recursively).  Timers do not count inside such a chain. *)
 Inductive rel :=
 | RQuit (c : comp)   (* c's quit channel is closed (for CSvc: s.quit) *)
-| RTimer (ms : Z).   (* a timer of at most ms milliseconds fires *)
+| RTimer (ms : Z)    (* a timer of at most ms milliseconds fires *)
+| RServe (c : comp) (blocks : list (list rel)).
 
 (* Result classes of an API call (also the harness's encoding). *)
 Definition K_ok := 0.        (* a valid result *)
@@ -77,6 +88,21 @@ Record site := mkSite {
 (* ------------------------------------------------------------------ *)
 (* Internal wait sites (goroutines a Stop waits for).                  *)
 
+(* Where the serving goroutines can themselves be blocked.
+   Subscription handler (blockntfns/manager.go): outside its select it only
+   sends into the subscribers' unbounded queues and replies on channels of
+   capacity 1.
+   Block handler (blockmanager.go): handleHeadersMsg -> rollBackToHeight ->
+   onBlockDisconnected: select { b.blockNtfnChan <- (received by the
+   subscription handler); <-b.quit }.
+   Peer handler (neutrino.go): handleAddPeerMsg -> blockManager.NewPeer:
+   select { b.peerChan <- (received by the block handler); <-b.quit }. *)
+Definition sub_handler_blocks : list (list rel) := [].
+Definition block_handler_blocks : list (list rel) :=
+  [[RQuit CBlock; RServe CSub sub_handler_blocks]].
+Definition peer_handler_blocks : list (list rel) :=
+  [[RQuit CBlock; RServe CBlock block_handler_blocks]].
+
 (* pushtx/broadcaster.go broadcastHandler main select: has <-b.quit *)
 Definition g_bcast_idle := mkSite 10 (Some CBcast) [RQuit CBcast] [].
 (* broadcastHandler inside cfg.Broadcast = ChainService.sendTransaction =
@@ -87,15 +113,33 @@ Definition g_bcast_idle := mkSite 10 (Some CBcast) [RQuit CBcast] [].
 Definition g_bcast_in_broadcast := mkSite 11 (Some CBcast) [RQuit CSvc; RTimer 6000] [].
 (* rebroadcast worker: same call; checks b.quit between transactions *)
 Definition g_bcast_rebroadcast := mkSite 12 (Some CBcast) [RQuit CSvc; RTimer 6000] [].
+(* rebroadcast worker handing a confirmed txid to the handler:
+   select { confChan <- ; <-b.quit } *)
+Definition g_bcast_conf := mkSite 13 (Some CBcast) [RQuit CBcast] [].
+(* handler / rebroadcast worker at the start of queryAllPeers: s.Peers() asks
+   the peer handler: select { s.query <- ; <-s.quit }, then <-replyChan *)
+Definition g_bcast_in_peers := mkSite 14 (Some CBcast) [RQuit CSvc; RServe CSvc peer_handler_blocks] [].
+(* handler leaving: deferred sub.Cancel() = cancelSubscription:
+   select { m.cancelSubscriptions <- ; <-m.quit } *)
+Definition g_bcast_cancel_sub := mkSite 15 (Some CBcast) [RQuit CSub; RServe CSub sub_handler_blocks] [].
 
 (* query/workmanager.go workDispatcher: every select has <-w.quit *)
 Definition g_work_dispatcher := mkSite 20 (Some CWork) [RQuit CWork] [].
 (* query/worker.go Run: every select has <-quit (= w.quit) *)
 Definition g_work_worker := mkSite 21 (Some CWork) [RQuit CWork] [].
+(* workDispatcher at its start, inside cfg.ConnectedPeers (ChainService.
+   ConnectedPeers): select { s.query <- ; <-s.quit }, select { <-replyChan;
+   <-s.quit } *)
+Definition g_work_in_connected_peers := mkSite 22 (Some CWork) [RQuit CSvc; RServe CSvc peer_handler_blocks] [].
+(* worker inside HandleResp = cfiltersQuery.handleResponse -> filterBatchWriter.
+   AddItem (PersistToDisk): a bare send into the writer's unbounded queue,
+   which runs until the batch writer is stopped; no quit alternative *)
+Definition g_work_in_additem := mkSite 23 (Some CWork) [RServe CBatch []] [].
 
 (* utxoscanner.go batchManager waiting on the condition variable; Stop
-   signals it every 50ms after closing s.quit *)
-Definition g_scan_idle := mkSite 30 (Some CScan) [RQuit CScan; RTimer 50] [].
+   signals it every 50ms after closing s.quit, and the loop polls s.quit
+   after every wake-up.  (cond.Wait itself has no quit alternative.) *)
+Definition g_scan_idle := mkSite 30 (Some CScan) [RTimer 50] [].
 (* batchManager inside cfg.GetBlock (ChainService.GetBlock) or
    BlockFilterMatches (ChainService.GetCFilter): they wait for the work
    manager's verdict or s.quit; the verdict comes at once when the work
@@ -103,15 +147,23 @@ Definition g_scan_idle := mkSite 30 (Some CScan) [RQuit CScan; RTimer 50] [].
    also comes from the network, with silent peers after the batch's 30s
    deadline, with no peer never — none of which shutdown may rely on. *)
 Definition g_scan_in_query := mkSite 31 (Some CScan) [RQuit CWork; RQuit CSvc] [].
+(* batchManager inside GetBlock / GetCFilter handing the batch to
+   workManager.Query: select { w.newBatches <- ; <-w.quit } *)
+Definition g_scan_in_submit := mkSite 32 (Some CScan) [RQuit CWork] [].
 
 (* blockntfns/manager.go subscriptionHandler: select has <-m.quit *)
 Definition g_sub_handler := mkSite 40 (Some CSub) [RQuit CSub] [].
+(* the per-subscriber forwarding goroutine started by NewSubscription (Stop
+   waits for it through newSubscription.cancel): both selects have <-sub.quit
+   and <-m.quit *)
+Definition g_sub_forwarder := mkSite 41 (Some CSub) [RQuit CSub] [].
 
 (* blockmanager.go blockHandler: select has <-b.quit *)
 Definition g_block_handler := mkSite 50 (Some CBlock) [RQuit CBlock] [].
-(* cfHandler waiting on newHeadersSignal / newFilterHeadersSignal: Stop
-   broadcasts both every 50ms *)
-Definition g_cf_cond := mkSite 51 (Some CBlock) [RQuit CBlock; RTimer 50] [].
+(* cfHandler waiting on newHeadersSignal: Stop broadcasts it every 50ms
+   after closing b.quit, and the loop polls b.quit after every wake-up.
+   (cond.Wait itself has no quit alternative.) *)
+Definition g_cf_cond := mkSite 51 (Some CBlock) [RTimer 50] [].
 (* cfHandler in the retry sleep: select { time.After(retryTimeout=3s); b.quit } *)
 Definition g_cf_retry := mkSite 52 (Some CBlock) [RQuit CBlock; RTimer 3000] [].
 (* cfHandler inside queryAllPeers (getcfcheckpt, getcfheaders for the
@@ -124,6 +176,17 @@ Definition g_cf_query_all := mkSite 53 (Some CBlock) [RQuit CSvc; RTimer 10000] 
 Definition g_cf_batch := mkSite 54 (Some CBlock) [RQuit CBlock; RQuit CWork] [].
 (* cfHandler inside GetBlock (resolveFilterMismatchFromBlock) *)
 Definition g_cf_getblock := mkSite 55 (Some CBlock) [RQuit CWork; RQuit CSvc] [].
+(* cfHandler inside writeCFHeadersMsg -> onBlockConnected:
+   select { b.blockNtfnChan <- ; <-b.quit } *)
+Definition g_cf_notify := mkSite 56 (Some CBlock) [RQuit CBlock] [].
+(* cfHandler at the start of queryAllPeers: s.Peers() asks the peer handler *)
+Definition g_cf_in_peers := mkSite 57 (Some CBlock) [RQuit CSvc; RServe CSvc peer_handler_blocks] [].
+(* cfHandler handing a batch to workManager.Query (GetBlock,
+   getCheckpointedCFHeaders): select { w.newBatches <- ; <-w.quit } *)
+Definition g_cf_in_submit := mkSite 58 (Some CBlock) [RQuit CWork] [].
+(* the goroutine that becomes cfHandler, before the first peer:
+   select { <-firstPeerSignal; <-b.quit } *)
+Definition g_cf_first_peer := mkSite 59 (Some CBlock) [RQuit CBlock] [].
 
 (* chanutils/batch_writer.go manageNewItems: select has <-b.quit *)
 Definition g_batch_writer := mkSite 70 (Some CBatch) [RQuit CBatch] [].
@@ -132,15 +195,20 @@ Definition g_batch_writer := mkSite 70 (Some CBatch) [RQuit CBatch] [].
 Definition g_svc_peer_handler := mkSite 80 (Some CSvc) [RQuit CSvc] [].
 (* peerDoneHandler / notifyConnectedPeer / permanent-peer lookup loop *)
 Definition g_svc_misc := mkSite 81 (Some CSvc) [RQuit CSvc] [].
+(* peerHandler inside handleAddPeerMsg -> blockManager.NewPeer:
+   select { b.peerChan <- ; <-b.quit } *)
+Definition g_svc_in_newpeer := mkSite 82 (Some CSvc) [RQuit CBlock] [].
 
 Definition internal_sites : list site :=
-  [g_bcast_idle; g_bcast_in_broadcast; g_bcast_rebroadcast;
-   g_work_dispatcher; g_work_worker;
-   g_scan_idle; g_scan_in_query;
-   g_sub_handler;
+  [g_bcast_idle; g_bcast_in_broadcast; g_bcast_rebroadcast; g_bcast_conf; g_bcast_in_peers;
+   g_bcast_cancel_sub;
+   g_work_dispatcher; g_work_worker; g_work_in_connected_peers; g_work_in_additem;
+   g_scan_idle; g_scan_in_query; g_scan_in_submit;
+   g_sub_handler; g_sub_forwarder;
    g_block_handler; g_cf_cond; g_cf_retry; g_cf_query_all; g_cf_batch; g_cf_getblock;
+   g_cf_notify; g_cf_in_peers; g_cf_in_submit; g_cf_first_peer;
    g_batch_writer;
-   g_svc_peer_handler; g_svc_misc].
+   g_svc_peer_handler; g_svc_misc; g_svc_in_newpeer].
 
 (* ------------------------------------------------------------------ *)
 (* Caller sites (API calls blocked when Stop begins).                  *)
@@ -169,16 +237,46 @@ Definition c_peers := mkSite 105 None [RQuit CSvc] [K_ok; K_shutdown].
 Definition caller_sites : list site :=
   [c_getblock; c_getcfilter; c_getutxo; c_rescan; c_sendtx; c_peers].
 
-Definition code_sites : list site := internal_sites ++ caller_sites.
+(* ------------------------------------------------------------------ *)
+(* Detached goroutines: nobody waits for them, they only have to end.   *)
+
+(* peer goroutines handing a message to the block manager (QueueInv,
+   QueueHeaders; peerDoneHandler in DonePeer): select { b.peerChan <- ; <-b.quit } *)
+Definition d_peer_to_blockmgr := mkSite 110 None [RQuit CBlock] [].
+(* the time.AfterFunc callback of a batch's progress timer:
+   select { w.progressWakes <- ; <-w.quit } *)
+Definition d_work_wake := mkSite 111 None [RQuit CWork] [].
+
+Definition detached_sites : list site := [d_peer_to_blockmgr; d_work_wake].
+
+Definition code_sites : list site := internal_sites ++ caller_sites ++ detached_sites.
 
 (* ------------------------------------------------------------------ *)
 (* Semantics of Stop.                                                  *)
+
+(* a release that is available at once: a closed quit channel, or a serving
+   goroutine that is still running and not itself stuck *)
+Fixpoint fires0 (raised : list comp) (r : rel) {struct r} : bool :=
+  match r with
+  | RQuit c => memc c raised
+  | RTimer _ => false
+  | RServe c blocks =>
+    negb (memc c raised) && forallb (fun alts => existsb (fires0 raised) alts) blocks
+  end.
 
 (* delay until r fires, given the quit channels closed so far *)
 Definition rel_delay (raised : list comp) (r : rel) : option Z :=
   match r with
   | RQuit c => if memc c raised then Some 0 else None
   | RTimer ms => Some ms
+  | RServe _ _ => if fires0 raised r then Some 0 else None
+  end.
+
+Definition rel_fires (raised : list comp) (r : rel) : bool :=
+  match r with
+  | RQuit c => memc c raised
+  | RTimer _ => true
+  | RServe _ _ => fires0 raised r
   end.
 
 Definition omin (a b : option Z) : option Z :=
@@ -221,7 +319,7 @@ Fixpoint run_stop (order : list comp) (raised : list comp) (st : list site) (acc
 
 (* A caller is released once one of its quit alternatives is closed. *)
 Definition releasable (raised : list comp) (s : site) : bool :=
-  existsb (fun r => match r with RQuit c => memc c raised | RTimer _ => true end) (s_rel s).
+  existsb (rel_fires raised) (s_rel s).
 
 (* ------------------------------------------------------------------ *)
 (* The check on (order, table) that the theorems are stated over.      *)
@@ -238,23 +336,35 @@ Fixpoint wf_from (raised : list comp) (order : list comp) (table : list site) : 
 Definition wf_callers (order : list comp) (table : list site) : bool :=
   forallb (fun s => match s_owner s with
                     | Some _ => true
-                    | None => existsb (fun r => match r with RQuit c => memc c order | RTimer _ => false end) (s_rel s)
+                    | None => existsb (fun r => match r with RQuit c => memc c order | _ => false end) (s_rel s)
                     end) table.
 
-(* The explicit dependency relation: (owner, c) when a goroutine of [owner]
-   waits at a site none of whose quit alternatives is closed by the time
-   [owner] is stopped, and c is one of those (later) quit alternatives. *)
+(* The explicit dependency relation: (site, owner, c) when a goroutine of
+   [owner] waits at a site none of whose quit alternatives is closed by the
+   time [owner] is stopped, and c is one of those (later) quit alternatives,
+   or a component one of whose goroutines serves the wait. *)
 Fixpoint deps_from (raised : list comp) (order : list comp) (table : list site) : list (Z * comp * comp) :=
   match order with
   | [] => []
   | o :: rest =>
     flat_map (fun s =>
-      if owned_by o s && negb (existsb (fun r => match r with RQuit c => memc c (o :: raised) | RTimer _ => false end) (s_rel s))
-      then flat_map (fun r => match r with RQuit c => [(s_id s, o, c)] | RTimer _ => [] end) (s_rel s)
+      if owned_by o s && negb (existsb (fun r => match r with RQuit c => memc c (o :: raised) | _ => false end) (s_rel s))
+      then flat_map (fun r => match r with
+                              | RQuit c => [(s_id s, o, c)]
+                              | RServe c _ =>
+                                (* served by a goroutine of c, and c's quit is not an alternative *)
+                                if existsb (fun r' => match r' with RQuit c' => comp_eqb c c' | _ => false end) (s_rel s)
+                                then [] else [(s_id s, o, c)]
+                              | RTimer _ => []
+                              end) (s_rel s)
       else []) table
     ++ deps_from (o :: raised) rest table
   end.
 
 (* Sites that depend on a later component and have no timer either. *)
 Definition has_timer (s : site) : bool :=
-  existsb (fun r => match r with RTimer _ => true | RQuit _ => false end) (s_rel s).
+  existsb (fun r => match r with RTimer _ => true | _ => false end) (s_rel s).
+
+(* ... or are served by a goroutine of that later component *)
+Definition is_served (s : site) : bool :=
+  existsb (fun r => match r with RServe _ _ => true | _ => false end) (s_rel s).
